@@ -266,7 +266,6 @@ LEAVES = st.one_of(
 )
 
 
-@st.composite
 def _primary(f):
     """decoded local path a File/Directory value denotes (None for other URL schemes)"""
     s = f.get("path", f.get("location"))
@@ -300,8 +299,8 @@ def file_value(draw, base: str, hostile: bool, depth: int, directory=None, root=
     out["basename"] = name
     if not is_dir:
         if draw(st.booleans()):
-            root, ext = posixpath.splitext(name)
-            out.update({"nameroot": root, "nameext": ext, "size": draw(st.integers(0, 99)),
+            nameroot, ext = posixpath.splitext(name)
+            out.update({"nameroot": nameroot, "nameext": ext, "size": draw(st.integers(0, 99)),
                         "checksum": "sha1$da39a3ee5e6b4b0d3255bfef95601890afd80709"})
         if depth < 3 and draw(st.integers(0, 3)) == 0:
             out["secondaryFiles"] = draw(st.lists(file_value(posixpath.dirname(path), hostile, depth + 1, root=root), min_size=0, max_size=2))
